@@ -95,6 +95,29 @@ theorem linger_fuel_enough (tick : Nat) (ht : 0 < tick) (d fuel : Nat) (hf : d /
   generalize tick * (d / tick) = y at h1 h5
   omega
 
+/-- whatever LINGER is (−1 included): once the pipes are empty the next check ends the phase -/
+theorem lingerEnds_drained (tick : Nat) (linger : Timeo) (e : Nat) : ∀ (fuel k : Nat),
+    e + tick ≤ (k + fuel) * tick → k * tick < e + tick →
+    ∃ t, lingerEnds tick linger (some e) fuel k = some t ∧ t < e + tick := by
+  intro fuel
+  induction fuel with
+  | zero => intro k h1 h2; simp only [Nat.add_zero] at h1; omega
+  | succ fuel ih =>
+    intro k h1 h2
+    rw [lingerEnds_succ]
+    by_cases hd : lingerDone linger (pipesEmptyAt (some e) (k * tick)) (k * tick) = true
+    · rw [if_pos hd]; exact ⟨_, rfl, h2⟩
+    · rw [if_neg hd]
+      have hne : ¬ e ≤ k * tick := by
+        intro hle
+        apply hd
+        simp [lingerDone, pipesEmptyAt, hle]
+      have h3 : (k + 1) * tick = k * tick + tick := Nat.succ_mul k tick
+      apply ih (k + 1)
+      · have : k + 1 + fuel = k + (fuel + 1) := by omega
+        rw [this]; exact h1
+      · omega
+
 theorem lingerEnds_ms_bounded (tick : Nat) (ht : 0 < tick) (d : Nat) (emptyAt : Option Nat) (fuel : Nat)
     (hf : d / tick + 1 < fuel) :
     ∃ t, lingerEnds tick (.ms d) emptyAt fuel 0 = some t ∧ t < d + tick
